@@ -336,7 +336,8 @@ impl<'a> TypstTranslator<'a> {
             Expr::Let(let_binding) => merge![
                 match let_binding.kind() {
                     LetBindingKind::Normal(pattern) => self.parse_pattern(pattern, offset),
-                    LetBindingKind::Closure(ident) => self.parse_ident(ident, offset),
+                    // The name belongs to the closure in `init`, which translates it.
+                    LetBindingKind::Closure(_) => None,
                 },
                 let_binding.init().and_then(|e| recurse!(e))
             ],
